@@ -32,6 +32,15 @@ CHECKS = {
     "C09": _c("exploration",
               "Differential: each host program is run with every call site inlined, every call site nested, a random mix, and nested one level deeper; all variants must produce identical user-code runs and streams (pairwise and vs the flattening model); every child graph evaluation must be at its parent's current time inside the parent's bracket; timers inside idle children must fire at their time.",
               "DESIGN.md section 3 C09", TRUST, "runtime monitoring: differential inline/nested execution + child-clock trace monitor"),
+    "C10": _c("exploration",
+              "Every key epoch [added, removed) of a random TSD key history is simulated alone by the reference model (fresh state, that key's element stream, broadcast inputs sampled at the epoch start); per-instance user-code runs and values, the map output per key and tick, the published key set (valid child outputs only), added/removed/modified key parts and one child graph start/stop per epoch must all agree.",
+              "DESIGN.md section 3 C10", TRUST, "runtime monitoring: per-key-epoch differential against a standalone reference model"),
+    "C11": _c("exploration",
+              "A passive probe samples the reduce result every cycle; the expected value is computed order-free from the live valid elements of the scripted TSD/TSL source: invalid for empty without zero, zero for empty with zero, f(v, zero) for a singleton with zero, fold otherwise (marker combiner a+b+1000 pins the zero rules). Combiners as node, registered operator and sub-graph; growth across capacity boundaries.",
+              "DESIGN.md section 3 C11", TRUST, "runtime monitoring: every-cycle probe vs order-free fold oracle"),
+    "C12": _c("exploration",
+              "Every selection epoch of a random key history is simulated alone (fresh branch program, held inputs sampled at selection); per-instance runs and values, the switch output tick stream (== concatenation of the selected branches' outputs), one branch instance per selection incl. returns to earlier keys, the previous instance stopped at the switch, reload-on-tick, and an error for an unmatched key without default.",
+              "DESIGN.md section 3 C12", TRUST, "runtime monitoring: per-selection-epoch differential against a standalone reference model"),
     "C14": _c("fault_enumeration",
               "Exhaustive single-fault enumeration per generated program: node x {start, evaluate, stop} x occurrence (1..3) x cleanup_on_error {on, off}, plus sampled fault pairs. A per-node-instance trace automaton over user-level start/stop/eval logs and LifecycleObserver events checks: start hook at most once, evaluations only between start and stop, exactly one stop iff the start completed, starts in index order and stops in reverse per graph (root and nested children), every started node stopped before run() returns (or before executor release with cleanup off), before/after event pairing, and that run() throws the original what().",
               "DESIGN.md section 3 C14", TRUST, "runtime monitoring with fault injection: exhaustive single-fault enumeration + lifecycle trace automaton"),
